@@ -589,6 +589,14 @@ def check_c07(run: Run) -> None:
             if m is None:
                 continue
             _, ds, do = m
+            # an ORIGIN object given an explicit reference carries that reference
+            if eo.op == 'origin':
+                own = run.spec['ops'][eo.op_index].get('attrs', {}).get('origin_reference')
+                if isinstance(own, int) and not isinstance(own, bool):
+                    run.obs['origin-own-reference-checked'] += 1
+                    if do.name[0] != own:
+                        run.v('C07', 'origin-field-wrong', 'origin-own-reference',
+                              f'lf {lfi}: ORIGIN {eo.name!r} was given the reference {own}, it is written with {do.name[0]}')
             # origin field
             if eo.op != 'origin':
                 want = def_origin
@@ -597,9 +605,11 @@ def check_c07(run: Run) -> None:
                     t = run.match.get(org['$origin_of'])
                     want = t[2].name[0] if t else None
                     run.obs['explicit-origin'] += 1
-                elif isinstance(org, int) and not isinstance(org, bool) and org != 0:
-                    want = org
+                elif isinstance(org, int) and not isinstance(org, bool):
+                    want = org          # (0 is a reference like any other)
                     run.obs['explicit-origin'] += 1
+                    if org == 0:
+                        run.obs['explicit-origin-zero'] += 1
                 if not eo.created_after_origin:
                     run.obs['origin-backfilled'] += 1
                 if want is not None and do.name[0] != want:
